@@ -625,10 +625,191 @@ func ruleR13_3(c *Check) {
 	}
 }
 
+// R13.4: the per-key state of the retention decision.
+func ruleR13_4(c *Check) {
+	w := c.W
+	r := c.Rule("R13.4", "E6+E5", 4, "subcompact.addKeys, per-key retention state: the version count restarts at 0 for every new user key (unconditionally in the branch taken when the key differs from the remembered one, which also remembers the new key); the remaining versions are skipped for the key of the entry that decided it; an entry that reaches the retention decision is itself dropped only when it is deleted or expired (decided propositionally over the guards of every drop)",
+		"a count carried over from the previous key drops the newest versions of the next key; arming the skip with another key drops versions of the wrong key; dropping the last valid version leaves fewer than NumVersionsToKeep versions")
+	ak := w.F("badger.levelsController.subcompact").LitVar("addKeys")
+	sameKey := w.Func("y.SameKey")
+	nvk := w.Field("badger.Options.NumVersionsToKeep")
+	var numVersions *types.Var
+	ak.walk(func(x ast.Node) bool {
+		b, ok := x.(*ast.BinaryExpr)
+		if !ok || (b.Op != token.EQL && b.Op != token.GEQ && b.Op != token.LEQ) {
+			return true
+		}
+		other := ast.Expr(nil)
+		if w.fieldOf(b.Y) == nvk {
+			other = b.X
+		} else if w.fieldOf(b.X) == nvk {
+			other = b.Y
+		}
+		if id, ok := unparen(other).(*ast.Ident); ok && other != nil {
+			if v, ok := w.Use(id).(*types.Var); ok {
+				numVersions = v
+			}
+		}
+		return true
+	})
+	if numVersions == nil {
+		panic(anchorError{"version counter compared with NumVersionsToKeep in subcompact"})
+	}
+	// the skip test and the iterator's key accessor
+	var skip *types.Var
+	var keyCallee types.Object
+	ak.walk(func(n ast.Node) bool {
+		is, ok := n.(*ast.IfStmt)
+		if !ok {
+			return true
+		}
+		call, ok := unparen(is.Cond).(*ast.CallExpr)
+		if !ok || w.Callee(call) != types.Object(sameKey) || len(call.Args) != 2 {
+			return true
+		}
+		if n := len(is.Body.List); n > 0 {
+			if b, ok := is.Body.List[n-1].(*ast.BranchStmt); ok && b.Tok == token.CONTINUE {
+				if id, ok := unparen(call.Args[1]).(*ast.Ident); ok {
+					skip, _ = w.Use(id).(*types.Var)
+					if kc, ok := unparen(call.Args[0]).(*ast.CallExpr); ok {
+						keyCallee = w.Callee(kc)
+					}
+				}
+			}
+		}
+		return true
+	})
+	if skip == nil || keyCallee == nil {
+		panic(anchorError{"skipKey test of subcompact"})
+	}
+	mentionsKey := func(e ast.Node) bool {
+		found := false
+		ast.Inspect(e, func(n ast.Node) bool {
+			if call, ok := n.(*ast.CallExpr); ok && w.Callee(call) == keyCallee {
+				found = true
+			}
+			return true
+		})
+		return found
+	}
+	// (a) the count restarts for every new key
+	resets := 0
+	for _, s := range ak.Sites(selStoreVar(numVersions)) {
+		as, ok := s.(*ast.AssignStmt)
+		if !ok || len(as.Rhs) != 1 {
+			continue
+		}
+		if v, ok := w.constInt(as.Rhs[0]); !ok || v != 0 {
+			continue
+		}
+		resets++
+		var newKey *Guard
+		var last *types.Var
+		bad := ""
+		gs := w.Guards(ak, as)
+		for i, g := range gs {
+			if g.Implicit {
+				continue
+			}
+			if _, isFor := g.At.(*ast.ForStmt); isFor {
+				continue
+			}
+			if call, ok := g.Cond.(*ast.CallExpr); ok && !g.Val && w.Callee(call) == types.Object(sameKey) && len(call.Args) == 2 {
+				for j, a := range call.Args {
+					if id, ok := unparen(a).(*ast.Ident); ok && mentionsKey(call.Args[1-j]) {
+						if v, ok := w.Use(id).(*types.Var); ok && v != skip {
+							last = v
+							newKey = &gs[i]
+						}
+					}
+				}
+				if newKey != nil {
+					continue
+				}
+			}
+			bad = "the reset also depends on `" + short(w, g.Cond) + "`"
+		}
+		switch {
+		case newKey == nil:
+			r.Check(false, ak, "count restarts when the user key changes", as, "the reset is not in the branch taken when SameKey(current key, remembered key) fails")
+		case bad != "":
+			r.Check(false, ak, "count restarts when the user key changes", as, bad)
+		default:
+			r.Check(true, ak, "count restarts when the user key changes", as, "")
+			// the remembered key is replaced by the current key in the same branch
+			ok := false
+			for _, st := range ak.Sites(selStoreVar(last)) {
+				sa, isAs := st.(*ast.AssignStmt)
+				if !isAs || len(sa.Rhs) != 1 || !mentionsKey(sa.Rhs[0]) {
+					continue
+				}
+				for _, g := range w.Guards(ak, sa) {
+					if g.At == newKey.At && !g.Implicit {
+						ok = true
+					}
+				}
+			}
+			r.Check(ok, ak, "the new key is remembered in the same branch", as, "no assignment of the current key to `"+last.Name()+"` under the new-key test")
+		}
+	}
+	r.Exists(resets >= 1, ak, "version count reset", nil, "numVersions is never reset to 0 in addKeys")
+	// (b) the skip is armed with the key of the current entry (or the remembered key, which equals it there)
+	for _, s := range ak.Sites(selStoreVar(skip)) {
+		as := s.(*ast.AssignStmt)
+		if se, ok := unparen(as.Rhs[0]).(*ast.SliceExpr); ok && se.High != nil {
+			if v, ok := w.constInt(se.High); ok && v == 0 {
+				continue
+			}
+		}
+		r.Check(mentionsKey(as.Rhs[0]), ak, "skip armed with the current entry's key", as, "skipKey is set from "+short(w, as.Rhs[0]))
+	}
+	// (c) the entry that reaches the retention decision is dropped only if deleted or expired
+	isExp := w.Func("badger.isDeletedOrExpired")
+	atom := func(e ast.Expr) string {
+		if w.isCallTo(w.Origin(ak, e), isExp) {
+			return "E"
+		}
+		return ""
+	}
+	ak.walk(func(x ast.Node) bool {
+		b, ok := x.(*ast.BranchStmt)
+		if !ok || b.Tok != token.CONTINUE {
+			return true
+		}
+		gs := w.Guards(ak, b)
+		for _, g := range gs {
+			if g.Implicit || !g.Val {
+				continue
+			}
+			if call, ok := g.Cond.(*ast.CallExpr); ok {
+				if w.Callee(call) == w.Func("badger.hasAnyPrefixes") {
+					return true
+				}
+				if w.Callee(call) == types.Object(sameKey) && len(call.Args) == 2 {
+					if id, ok := unparen(call.Args[1]).(*ast.Ident); ok && w.Use(id) == types.Object(skip) {
+						return true
+					}
+				}
+			}
+		}
+		var expl []Guard
+		for _, g := range gs {
+			if _, isFor := g.At.(*ast.ForStmt); isFor {
+				continue
+			}
+			expl = append(expl, g)
+		}
+		ok = w.guardsImply(expl, atom, func(env map[string]bool) bool { return env["E"] })
+		r.Check(ok, ak, "retention drop only of a deleted or expired entry", b, "the guards of this drop do not entail isDeletedOrExpired: a live version that should be kept (the last valid one) can be dropped")
+		return true
+	})
+}
+
 func propC13(c *Check) {
 	ruleR13_1(c)
 	ruleR13_2(c)
 	ruleR13_3(c)
+	ruleR13_4(c)
 }
 
 // ---- C14 ----
